@@ -345,3 +345,61 @@ Theorem C01_all_links_instance :
     exists outer inner, fst (run_x86 outer inner cs [6]) = ([(true, 21); (true, 36)], OExit 0).
 Proof. exact compile_correct_full_instance. Qed.
 Print Assumptions C01_all_links_instance.
+
+(* ---------- the two checks on the emitted code are theorems now ----------
+   `asm_wf cs = None` and `code_small cs = true` of C01_compile_correct_all_links_partial are replaced by boolean
+   guards on the linearized AxCut program (Props/C14.v: C14_x86_compile_asm_wf, C14_x86_compile_code_small):
+     labels_guard (linearize a)   unambiguous label texts (outside it: known finding label-collision-name-digits-e2e)
+     imm_guard (linearize a)      literals 64-bit, Substitute lists <= 2^31 pairs, types <= 2^28 xtors
+     size_guard (linearize a)     cg_bound_defs <= 2^40
+   No hypothesis of the theorem is a check on the output of the code generator any more; the guards of the middle
+   links and heap_fits remain (see C01_compile_correct_all_links_partial). *)
+From SCC Require Import Sem.LabelGuard Sem.WfGuard Proof.X86WfAll Proof.X86WfCor.
+Theorem C01_compile_correct_all_links :
+  forall (p : fcprog) (c : cprog) (f : fsprog) (a : prog) (cs : list xcode) (nargs : nat) (lc lc' : N)
+         (args : list Z) (n : nat) (o : obs),
+    NoDup (map fdname (fcpdefs p)) -> prog_guard p = true ->
+    compile_prog p = Fun2Core.Ok c ->
+    pre_check c = true -> focus_wf c = true -> cs_prog c = true -> static_ok c = true ->
+    focus_prog c = Backend.Ok f ->
+    frag2_prog f = true -> decls_ok f = true -> wt_fs f = true -> unique_binders f = true -> ids_bounded f = true ->
+    shrink_prog f = SOk a ->
+    prog_ok a = true ->
+    x86_compile (linearize a) lc = Backend.Ok (cs, nargs, lc') ->
+    AxHeapTyping.entry_ext (linearize a) = true -> plain_names (linearize a) = true -> plain_types (linearize a) = true ->
+    labels_guard (linearize a) = true -> imm_guard (linearize a) = true -> size_guard (linearize a) = true ->
+    heap_fits (linearize a) args ->
+    run_fun n p args = o -> out_ok o ->
+    (exists outer inner, fst (run_x86 outer inner cs args) = o) /\
+    (Forall (fun pz => in_i64 (snd pz)) (fst o) ->
+     bytes_of_string (render_prints (fst o)) = flat_map runtime_bytes (fst o)).
+Proof. exact compile_correct_full_wf. Qed.
+Print Assumptions C01_compile_correct_all_links.
+
+(* every guard executable (`all_guards_wf`: pipeline_guards, the guards of the x86-64 link on the model's stage
+   outputs - none of them looks at the emitted code -, `fits_run fuel`); the conclusion also states the two former
+   hypotheses *)
+Theorem C01_compile_correct_checked_wf :
+  forall (p : fcprog) (args : list Z) (fuel n : nat) (o : obs),
+    NoDup (map fdname (fcpdefs p)) -> all_guards_wf p args fuel = true ->
+    run_fun n p args = o -> out_ok o ->
+    exists c f a cs nargs lc',
+      pipeline_stages p = Some (c, f, a) /\ x86_compile (linearize a) 0 = Backend.Ok (cs, nargs, lc') /\
+      asm_wf cs = None /\ code_small cs = true /\
+      exists outer inner, fst (run_x86 outer inner cs args) = o.
+Proof. exact compile_correct_checked_wf. Qed.
+Print Assumptions C01_compile_correct_checked_wf.
+
+Theorem C01_all_links_wf_nonvacuous :
+  all_guards_wf ex_calls [5] 5000 = true /\ all_guards_wf ex_shared [5] 5000 = true /\ all_guards_wf ex_data [6] 5000 = true /\
+  all_guards_wf ex_labels [5] 5000 = true /\ all_guards_wf ex_codata [4] 5000 = true.
+Proof. exact all_guards_wf_examples. Qed.
+Print Assumptions C01_all_links_wf_nonvacuous.
+
+Theorem C01_all_links_wf_instance :
+  exists c f a cs nargs lc',
+    pipeline_stages ex_data = Some (c, f, a) /\ x86_compile (linearize a) 0 = Backend.Ok (cs, nargs, lc') /\
+    asm_wf cs = None /\ code_small cs = true /\
+    exists outer inner, fst (run_x86 outer inner cs [6]) = ([(true, 21); (true, 36)], OExit 0).
+Proof. exact compile_correct_checked_wf_instance. Qed.
+Print Assumptions C01_all_links_wf_instance.
